@@ -27,6 +27,8 @@ def run(F, G, tier, seed):
     nullness.run_symderef(chk, F)
     nullness.run_fixedidx(chk, F)
     nullness.run_optderef(chk, F)
+    nullness.run_findderef(chk, F, CG, nullness.PARSE_ENTRIES)
+    nullness.run_nullmember(chk, F, ("UTAP::TypeChecker",))
     progress.run(chk, F, CG)
     chk.assume("functions without a body in the facts (libstdc++, libxml2, libc) raise no UTAP::TypeException")
     chk.assume("bison error recovery only discards grammar symbols whose actions already ran (yacc semantics)")
